@@ -43,6 +43,7 @@ def run(ck):
     ck.rule("C10.R2c", "every valueset! field-form arm is exercised by a fixture function", floor=20)
     ck.rule("C10.R4", "impl Value for T calls exactly the visitor method for its type", floor=30)
     ck.rule("C10.R5", "ValueSet::record visits a pair iff same callsite and Some; Span::record ignores undeclared", floor=3)
+    ck.rule("C10.R9", "an enabled emission is not skipped by a stale `never`: the interest a first hit caches is the fold over the registered dispatchers, computed under the registry lock (as C04.R1)", floor=3)
     ck.rule("C10.R8", "`a collector has been installed` is sticky (as C18.R5): disabled callsites evaluate nothing also with the log feature", floor=3)
     ck.rule("C10.R7", "collector wrappers forward register_callsite/enabled and the records themselves (as C09.R1/R2)", floor=20)
     ck.rule("C10.R6", "recorded values reach the collector: the dispatcher's re-entrancy flag is given back on every exit (as C02.R6)", floor=3)
@@ -79,6 +80,8 @@ def run(ck):
     # installed: that flag must be set by both install paths and never cleared (C18.R5 / C02.R5)
     from rules import C18
     C18.r5(ck, F, rid="C10.R8")
+    from rules import C04
+    C04.r1(ck, F, rid="C10.R9")
     from rules import C09
     C09.wrapper_rules(ck, F, rids={"R0": "C10.R7", "R1": "C10.R7", "R2": "C10.R7", "R3": "C10.R7"}, traits=["tracing_core::collect::Collect"],
                       only={"register_callsite", "enabled", "event_enabled", "event", "new_span", "record"})
@@ -175,32 +178,32 @@ def value_kind(body, op, depth=0):
     return (o[0], None)
 
 
-def r2(ck, FX, body, fname, exp):
+def r2(ck, FX, body, fname, exp, rid="C10.R2"):
     cs = fxlib.callsite_of(FX, body)
     arm = cs[3] if cs else None
     vkey = "%s! arm macros.rs:%s" % (exp["macro"], arm)
     key = fname
     if not cs:
-        ck.bad("C10.R2", vkey + ": no-callsite", where(body.raw["sp"]), "no callsite static for %s" % fname)
+        ck.bad(rid, vkey + ": no-callsite", where(body.raw["sp"]), "no callsite static for %s" % fname)
         return
     meta = cs[2]["val"]["f"]
     names = [x.get("str") for x in meta["fields"]["f"]["names"].get("slice", [])]
     if names != exp["names"]:
-        ck.bad("C10.R2", vkey + ": names", where(body.raw["sp"]),
+        ck.bad(rid, vkey + ": names", where(body.raw["sp"]),
                "the static FieldSet of %s lists %s, the invocation declares %s" % (fname, names, exp["names"]), fn=body.path)
         return
     # the value_set call on the enabled path
     vs = [(bb, t) for bb, t in body.calls() if t["callee"].get("path") == FIELD + "FieldSet::value_set"]
     if len(vs) != 1:
-        ck.bad("C10.R2", vkey + ": value_set-count", where(body.raw["sp"]), "%d value_set calls in %s" % (len(vs), fname), fn=body.path)
+        ck.bad(rid, vkey + ": value_set-count", where(body.raw["sp"]), "%d value_set calls in %s" % (len(vs), fname), fn=body.path)
         return
     bb, t = vs[0]
     arr = body.origin(t["argv"][1])
     if arr[0] == "const" and not exp["names"]:
-        ck.ok("C10.R2", key, fn=body.path, detail="no fields")
+        ck.ok(rid, key, fn=body.path, detail="no fields")
         return
     if arr[0] != "agg" or "array" not in arr[1]["agg"]:
-        ck.bad("C10.R2", vkey + ": value-array", where(body.raw["sp"]), "value_set argument is not a literal array (%s)" % arr[0], fn=body.path)
+        ck.bad(rid, vkey + ": value-array", where(body.raw["sp"]), "value_set argument is not a literal array (%s)" % arr[0], fn=body.path)
         return
     ops = arr[1]["ops"]
     want = []
@@ -256,9 +259,9 @@ def r2(ck, FX, body, fname, exp):
                 problems.append("field keys are not taken from the FieldSet iterator in order")
                 break
     if problems:
-        ck.bad("C10.R2", vkey + ": order-pairing", where(body.raw["sp"]), "; ".join(problems) + " (fixture %s)" % fname, fn=body.path)
+        ck.bad(rid, vkey + ": order-pairing", where(body.raw["sp"]), "; ".join(problems) + " (fixture %s)" % fname, fn=body.path)
     else:
-        ck.ok("C10.R2", key, fn=body.path, detail=dict(names=names, values=[list(g) for g in got]))
+        ck.ok(rid, key, fn=body.path, detail=dict(names=names, values=[list(g) for g in got]))
 
 
 # ------------------------------------------------------------------ R4
@@ -487,3 +490,17 @@ def r5(ck, F):
     vs = F.body(FIELD + "ValueSet::<'_>::callsite") or F.body(FIELD + "ValueSet::<'a>::callsite")
     if fs and vs:
         ck.ok("C10.R5", "callsite identity accessors present", nontrivial=False)
+
+
+def valueset_rule(ck, rid):
+    """R2 over the quick macro corpus under another property's rule id: what a field is recorded *as* (its name, its
+    position, and whether it goes through Display or Debug) is decided by the valueset! arms, before any formatter sees it."""
+    FX = Facts("fx")
+    if "fx" not in ck.configs:
+        ck.configs.append("fx")
+    for fname, exp in sorted(FX.expect.items()):
+        if exp["kind"] == "enabled":
+            continue
+        b = FX.body("fx_macros::macros_gen::" + fname)
+        if b is not None:
+            r2(ck, FX, b, fname, exp, rid=rid)
